@@ -188,7 +188,7 @@
     proof {
         let nb = h0.num_blocks as int; let nf = h0.num_free_blocks as int;
         assert((kbd >= 0) == (nb >= nf));
-        if kbd >= 0 { assert(kbd * 256 == h_lo(h0)); assert(h_lo(h0) / 256 == kbd); assert(hb_sane(sr, h0, kbd)); }
+        if kbd >= 0 { assert(kbd * 256 == h_lo(h0)); assert(h_lo(h0) / 256 == kbd) by (nonlinear_arith) requires kbd * 256 == h_lo(h0); assert(hb_sane(sr, h0, kbd)); }
     }
 //@}
 //@after 1 helper.push_block()?;{
@@ -263,14 +263,15 @@
 //@ret r
 //@head{
     requires old(self).states@.len() == 0, old(self).num_free_blocks >= 1, nfa_tree(*nfa)
-    ensures match r {
+    ensures final(self).match_kind == old(self).match_kind, final(self).num_free_blocks == old(self).num_free_blocks,
+      match r {
         Ok(_) => {
             // da_safe: what the unchecked search code relies on
             &&& final(self).states@.len() > 0 && final(self).states@.len() % 256 == 0 && final(self).states@.len() <= u32::MAX
             &&& forall|i: int| 0 <= i < final(self).states@.len() ==> ((#[trigger] final(self).states@[i]).base.is_some() ==> final(self).states@[i].base.unwrap()@ < final(self).states@.len())
             &&& forall|i: int| 0 <= i < final(self).states@.len() ==> (#[trigger] final(self).states@[i]).fail < final(self).states@.len()
             // stage B: the array encodes the NFA (edges present, no spurious edge, fail/output_pos copied)
-            &&& exists|idmap: Seq<u32>| bw_encodes(final(self).states@, *nfa, idmap)
+            &&& exists|idmap: Seq<u32>| bw_built(final(self).states@, *nfa, idmap)
         },
         Err(e) => e is AutomatonScale,
     }
@@ -289,18 +290,19 @@
         assert(stack@ =~= seq![0u32]);
         assert(stack@.contains(0u32)) by { assert(stack@[0] == 0u32); }
         lemma_bwb_init(*nfa, self.states@, state_id_map@);
+        assert forall|x: int| 0 <= x < self.states@.len() implies st_opos(#[trigger] self.states@[x]) == 0 by { lemma_opos_zero(self.states@[x]); }
         assert(glue(helper, inv, bowner));
         assert(closed_sane(self.states@, inv, bowner, h_lo(helper)));
     }
 //@}
 //@loop 1{
     invariant
-        gstack == stack@,
+        gstack == stack@, self.match_kind == old(self).match_kind, self.num_free_blocks == old(self).num_free_blocks,
         b_inv(*self, helper), nfa_tree(*nfa), n == nfa.states@.len(),
         state_id_map@.len() == n,
         forall|i: int| 0 <= i < n ==> (#[trigger] state_id_map@[i]) < self.states@.len(),
         state_id_map@[0] == 0, state_id_map@[1] == 1,
-        forall|x: int| 0 <= x < self.states@.len() ==> (#[trigger] self.states@[x]).fail == 0,
+        forall|x: int| 0 <= x < self.states@.len() ==> (#[trigger] self.states@[x]).fail == 0 && st_opos(self.states@[x]) == 0,
         forall|k: int| 0 <= k < stack@.len() ==> (#[trigger] stack@[k]) < n && stack@[k] != 1 && state_id_map@[stack@[k] as int] != 1,
         forall|s: int, c: u8| done.contains(s) && #[trigger] nfa_edges(*nfa, s).contains_key(c) ==> 0 <= s < n && state_id_map@[nfa_edges(*nfa, s)[c] as int] != 1,
         forall|s: int| 0 <= s < n && s != 1 && #[trigger] state_id_map@[s] != 1 ==> done.contains(s) || stack@.contains(s as u32),
@@ -392,6 +394,9 @@
             }
         }
         // stage B: a possibly appended block keeps the encoding; then open the state at `base`
+        assert forall|x: int| 0 <= x < self.states@.len() implies st_opos(#[trigger] self.states@[x]) == 0 by {
+            if x >= len0 { lemma_opos_zero(self.states@[x]); }
+        }
         if base@ == len0 {
             lemma_bwb_after_extend(*nfa, st0, self.states@, state_id_map@, inv, bowner, done, h0, helper);
         }
@@ -467,11 +472,12 @@
 //@loopiter 3 it3
 //@loop 3{
     invariant
+        self.match_kind == old(self).match_kind, self.num_free_blocks == old(self).num_free_blocks,
         b_inv(*self, helper), nfa_tree(*nfa), n == nfa.states@.len(), 0 <= sid < n, sid != 1, edges == nfa_edges(*nfa, sid),
         state_id_map@.len() == n,
         forall|i: int| 0 <= i < n ==> (#[trigger] state_id_map@[i]) < self.states@.len(),
         state_id_map@[0] == 0, state_id_map@[1] == 1,
-        forall|x: int| 0 <= x < self.states@.len() ==> (#[trigger] self.states@[x]).fail == 0,
+        forall|x: int| 0 <= x < self.states@.len() ==> (#[trigger] self.states@[x]).fail == 0 && st_opos(self.states@[x]) == 0,
         base@ < self.states@.len(), h_active(helper, base@ as int), state_idx < self.states@.len(), state_idx == state_id_map@[sid],
         ({ let rem = it3.snapshot@.remaining();
            &&& rem.no_duplicates()
@@ -515,6 +521,7 @@
 //@}
 //@loop 4{
     invariant
+        self.match_kind == old(self).match_kind, self.num_free_blocks == old(self).num_free_blocks,
         b_inv(*self, helper), nfa_tree(*nfa), n == nfa.states@.len(), state_id_map@.len() == n, state_id_map@ == idm,
         forall|i: int| 0 <= i < n ==> (#[trigger] state_id_map@[i]) < self.states@.len(),
         forall|t: int| 0 <= t < n && t != 1 ==> #[trigger] state_id_map@[t] != 1 && done.contains(t),
@@ -525,6 +532,7 @@
             && st_opos(self.states@[idm[s] as int]) == opt_u32(nfa.states@[s].output_pos),
         bwb(*nfa, self.states@, idm, inv, bowner, done, -1, 0, Set::empty()), glue(helper, inv, bowner),
         closed_sane(self.states@, inv, bowner, h_lo(helper)),
+        forall|x: int| 0 <= x < self.states@.len() ==> st_opos(#[trigger] self.states@[x]) == 0 || slot_used(*nfa, idm, x),
 //@}
 //@before 1 let idx = usize::from_u32(state_id_map[i]);{
     let ghost st_i = self.states@;
@@ -544,6 +552,7 @@
 //@loopiter 5 it5
 //@loop 5{
     invariant
+        self.match_kind == old(self).match_kind, self.num_free_blocks == old(self).num_free_blocks,
         b_inv(*self, helper), rs * 256 == h_lo(helper), rs <= closed_block_idx, closed_block_idx < helper.num_blocks || closed_block_idx == helper.num_blocks,
         forall|x: int| 0 <= x < self.states@.len() ==> (#[trigger] self.states@[x]).fail < self.states@.len(),
         // stage B
@@ -554,6 +563,7 @@
         bwb(*nfa, self.states@, idm, inv, bowner, done, -1, 0, Set::empty()), glue(helper, inv, bowner),
         closed_sane(self.states@, inv, bowner, h_lo(helper)),
         closed_block_idx == rs + it5.index@, it5.snapshot@.remaining().len() == helper.num_blocks - rs,
+        forall|x: int| 0 <= x < self.states@.len() ==> st_opos(#[trigger] self.states@[x]) == 0 || slot_used(*nfa, idm, x),
         forall|kb: int| rs <= kb < rs + it5.index@ ==> #[trigger] sane_block(self.states@, inv, bowner, kb),
 //@}
 //@before 1 self.remove_invalid_checks(closed_block_idx, &helper);{
@@ -603,7 +613,7 @@
 //@}
 //@before 1 Ok(()){
     proof {
-        assert(bw_encodes(self.states@, *nfa, idm));
+        assert(bw_built(self.states@, *nfa, idm));
     }
 //@}
 //@endimpl
